@@ -292,6 +292,23 @@ Example C15_ex_invalid :
   run prim_ops (mkP ApiIter 8 2 (CNum 3) 2 0 1) 5 [] = mkObs [] (ERaise ValueError).
 Proof. vm_compute. auto. Qed.
 
+(* and through backoff_iter: pulling [take] values leaves the iterator live after exactly [take]
+   values, or exhausts it on (the un-jittered) stop *)
+Theorem C15_binary64_default_count_iter :
+  forall start stop factor j take,
+    let p := mkP ApiIter start stop CNone factor j take in
+    must_raise prim_ops p = false -> PrimFloat.ltb PrimFloat.one factor = true ->
+    PrimFloat.eqb start PrimFloat.zero = true \/ PrimFloat.leb minnorm start = true -> take <> O ->
+    exists fuel n, forall draws, draws_ok prim_ops draws -> (n <= length draws)%nat ->
+      let o := run prim_ops p fuel draws in
+      values_ok prim_ops p (o_vals o) = true /\
+      ((o_end o = EMore /\ length (o_vals o) = take) \/
+       (o_end o = EStop /\
+        last_is prim_ops stop (if jitter_off prim_ops j then o_vals o
+                               else ideal prim_ops stop factor start (length (o_vals o))) = true)).
+Proof. exact binary64_default_count_iter. Qed.
+Print Assumptions C15_binary64_default_count_iter.
+
 (* an input meeting the hypotheses of the binary64 default-count theorems *)
 Example C15_ex_normal_start :
   must_raise prim_ops (mkP ApiList 0x1p-1022 3 CNone 1.5 (-0.5) 0%nat) = false /\
